@@ -176,6 +176,9 @@ func cmdCheck(args []string) int {
 	tGen := time.Since(r.t0).Seconds()
 	e.Discharge(tier, filepath.Join(r.workdir, "smt"))
 	r.extraCov["vc_generation_s"] = round2(tGen)
+	if os.Getenv("GOVC_WARN") != "" {
+		fmt.Printf("impure callees without contract or model: %s\n", strings.Join(sortedKeys(e.havockedImpure), "; "))
+	}
 	if os.Getenv("GOVC_TIMING") != "" {
 		fmt.Printf("timing: load+vcgen %.1fs, discharge %.1fs, %d obligations\n", tGen, time.Since(r.t0).Seconds()-tGen, len(e.obls))
 		for _, o := range e.obls {
@@ -399,7 +402,11 @@ func (r *Run) report(updateLock, verbose, noEvidence bool) int {
 		"cover_queries":             len(e.obls) - total,
 		"lemmas":                    r.lemmaList(),
 		"languages":                 r.languageList(),
+		// callees without contract or model. "pure": value-level library functions taken to be functions of their
+		// arguments that change nothing; "impure": every other such callee - each call returns new unknowns and whatever
+		// it can reach through its receiver and arguments is forgotten
 		"havocked_calls":            sortedKeys(e.havocked),
+		"havocked_calls_impure":     sortedKeys(e.havockedImpure),
 		"notes":                     e.notes,
 		"samples":                   r.samples(),
 		"known_findings_hit":        knownHit,
